@@ -24,7 +24,7 @@ STORE_W = ['Writer::add_item', 'Writer::append_item', 'Writer::del_item', 'Write
 STORE_R = ['Reader::open', 'Reader::dimensions', 'Reader::n_trees', 'Reader::n_items', 'Reader::item_ids', 'Reader::index',
            'Reader::contains_item', 'Reader::item_vector', 'Reader::iter', 'Reader::is_empty', 'ItemIter::next', 'item_leaf', 'QueryBuilder::by_vector', 'QueryBuilder::by_item']
 
-BQ_QUICK = ['bq_from_slice_len_1', 'bq_from_slice_len_63', 'bq_from_slice_len_64', 'bq_from_slice_len_65', 'bq_unpack_8_bytes',
+BQ_QUICK = ['bq_word_constants', 'bq_iterator_step_value', 'bq_from_slice_len_1', 'bq_from_slice_len_63', 'bq_from_slice_len_64', 'bq_from_slice_len_65', 'bq_unpack_8_bytes',
             'bq_roundtrip_len_3', 'bq_from_bytes_size_check']
 BQ_MORE = ['bq_from_slice_len_2', 'bq_from_slice_len_7', 'bq_from_slice_len_8', 'bq_from_slice_len_9', 'bq_from_slice_len_31', 'bq_from_slice_len_33',
            'bq_from_slice_len_127', 'bq_from_slice_len_128', 'bq_from_slice_len_129', 'bq_unpack_16_bytes', 'bq_to_vec_non_optimized_8_bytes', 'bq_roundtrip_len_40']
@@ -150,15 +150,18 @@ PROPS = {
     },
     'C12': {
         # the reported distance divides by the DECLARED dimension (not the padded length of the quantised vector): clause of the search contract
-        'verus': {'reader_search': ['Reader::nns_by_leaf']},
+        # unit bq_pack: the packing loop and the plain unpacking iterator for EVERY length (loop invariants over the bits of the words)
+        'verus': {'reader_search': ['Reader::nns_by_leaf'], 'bq_pack': None},
         'kani': {'quick': [('bq_codec', BQ_QUICK), ('bq_distance', ['bq_euclidean_is_4h_8_bytes', 'bq_dot_product_is_n_minus_2h_8_bytes']), ('bq_manhattan', ['bq_manhattan_is_2h_8_bytes']),
                            ('metric_formulas', ['bq_cosine_self_distance_is_zero_at_d65'])],
                  'thorough': [('bq_codec', BQ_MORE), ('bq_distance', ['bq_euclidean_is_4h_16_bytes']), ('metric_formulas', ['bq_cosine_is_in_the_unit_interval'])]},
-        'trusted': ['lengths proved: sign packing 1, 63, 64, 65 (quick) + 2, 7, 8, 9, 31, 33, 127, 128, 129 (thorough), contents fully symbolic; other lengths are NOT claimed',
-                    'the SSE unpacking path to_vec_sse (intrinsics) is not verified; the plain iterator and to_vec_non_optimized are',
+        'trusted': ['sign packing (from_slice_non_optimized) and the plain iterator (BinaryQuantizedIterator::next, BinaryQuantized::iter / len) are proved by Verus for EVERY length (unit bq_pack); the Kani harnesses at lengths 1, 63, 64, 65 (quick) + 2, 7, 8, 9, 31, 33, 127, 128, 129 (thorough) remain as the end-to-end cross-check on the compiled code (bounded, not counted as proof)',
+                    'unit bq_pack: std slice::chunks / iter().rev() / chunks_exact / u64::to_ne_bytes / from_ne_bytes are stand-ins with the std semantics (to_ne_bytes / from_ne_bytes as an uninterpreted bijection: no byte order is assumed); a float enters only through is_sign_positive (uninterpreted predicate) and through the value produced from one bit (stand-in pm_one_, whose arithmetic `bit as f32 * 2.0 - 1.0` is proved by the loop-free Kani harness bq_iterator_step_value over all u64 words); the constants 64 / 8 restated in the unit are proved equal to the real ones by Kani (bq_word_constants)',
+                    'BinaryQuantized::len requires fewer than 2^61 stored bytes (no overflow of (len / 8) * 64)',
+                    'the SSE unpacking path to_vec_sse (intrinsics) is not verified; the plain iterator is (all lengths), to_vec_non_optimized = iter().collect() for 8 bytes (Kani)',
                     'NEON code is not compiled on this host'],
         'not_decided': ['cosine: the exact value h / (64*ceil(d/64)) needs sqrt and division on floats (not decided); decided: the xor/popcount dot product it is computed from, that the reported value is in [0, 1] for all header norms (thorough tier, ~4 min) and exactly 0 in the concrete case of finding F9 (d = 65)',
-                        'generalisation of the packing proof to every d <= 300'],
+                        'the xor/popcount distance kernels are proved for 8 / 16 bytes (Kani, symbolic contents), not for every length (iterator adapters zip / map / sum)'],
     },
     'C16': {
         'kani': {'quick': [('key_layout', KEY_LAYOUT_ALL), ('node_id_codec', NODE_ID), ('version_codec', ['version_encode_is_reference_layout', 'version_decode_reads_reference_layout']),
